@@ -6,7 +6,7 @@ A Rust `String::truncate(n)`, a range slice `s[a..]` / `s[..b]` / `s[a..b]`, `sp
 `out.truncate(cut)` inside a glyph of the chips line).  The model's cuts (Model/Tui.v drop_to, Model/Summary.v trunc)
 are on character boundaries by construction; this extractor ties that modelling decision to the source:
 
-Reads  crates/rip-tui/src/*.rs and crates/rip-cli/src/main.rs (code before `#[cfg(test)] mod tests`)
+Reads  crates/rip-tui/src/*.rs and crates/rip-cli/src/*.rs (code before `#[cfg(test)] mod tests`)
   * every byte-position cut site, with the receiver classified as a string unless its declaration in the enclosing
     function (let / parameter) or its field type shows a Vec / slice / VecDeque / array (cutting those cannot split
     a character);
@@ -21,7 +21,7 @@ in summary.rs) must be found, otherwise gen_ok_cut_sites := false (never guess).
 import argparse, glob, os, re, sys
 
 KINDS = ["truncate", "range_slice", "split_at", "split_off", "drain", "replace_range", "insert_str"]
-SITE = re.compile(r"(?P<recv>[A-Za-z_][A-Za-z0-9_\.\*]*)\s*(?:"
+SITE = re.compile(r"(?P<recv>[A-Za-z_][A-Za-z0-9_]*(?:\.[A-Za-z_][A-Za-z0-9_]*(?:\([^()]*\))?)*)\s*(?:"
                   r"\.(?P<meth>truncate|split_at|split_off|drain|replace_range|insert_str)\(\s*(?P<arg>[^;]*)"
                   r"|\[(?P<lo>[^\[\]]*?)\.\.=?(?P<hi>[^\[\]]*?)\])")
 NOT_STRING = re.compile(r"Vec<|VecDeque|vec!\[|Vec::|&\[|&mut \[|\[[A-Za-z0-9_:<> ]+;|collect::<Vec|\.split\(|\.lines\(\)\.collect|Rows?<|Line<|Span<|&\[u8\]|Vec<u8>|as_bytes\(\)|\.to_vec\(\)|chunks\(")
@@ -69,8 +69,8 @@ def main():
     ap.add_argument("--out", required=True)
     a = ap.parse_args()
     notes, ok = [], True
-    files = sorted(glob.glob(os.path.join(a.repo, "crates/rip-tui/src/*.rs"))) + [os.path.join(a.repo, "crates/rip-cli/src/main.rs")]
-    if len(files) < 5:
+    files = sorted(glob.glob(os.path.join(a.repo, "crates/rip-tui/src/*.rs"))) + sorted(glob.glob(os.path.join(a.repo, "crates/rip-cli/src/*.rs")))
+    if len(files) < 6 or not any(f.endswith("rip-cli/src/main.rs") for f in files):
         ok = False
         notes.append("expected the rip-tui sources and rip-cli main.rs, found %d files" % len(files))
     sites = []          # (file_index, line, kind_index, is_string, guarded, text)
@@ -137,7 +137,7 @@ def main():
             notes.append("anchor not found: " + k)
     fns_ok = all(c for (_, _, c) in fn_defs) and len(fn_defs) >= 1
     out = []
-    out.append("(* GENERATED by tools/gen/tui_cut_sites.py from crates/rip-tui/src/*.rs and crates/rip-cli/src/main.rs — do not edit. *)")
+    out.append("(* GENERATED by tools/gen/tui_cut_sites.py from crates/rip-tui/src/*.rs and crates/rip-cli/src/*.rs — do not edit. *)")
     out.append("From RipV Require Import Base.Prelude.")
     out.append("")
     out.append("(* a place that cuts by a byte position: file number, line, kind (%s)," % ", ".join("%d %s" % (i, k) for i, k in enumerate(KINDS)))
